@@ -3,5 +3,7 @@ CONSTANTS
   W = 3
   N = 2
   THR = 3
+  THR2 = 1
+  MODE = "mul"
 INVARIANT Contract
 CHECK_DEADLOCK FALSE
